@@ -1129,8 +1129,10 @@ def _build_constant(
 ) -> str | Expr:
     if isinstance(node.value, str):
         if in_joined_str and not in_formatted_str:
-            # We're in a f-string, not in a formatted value, don't keep quotes.
-            return node.value
+            # We're in a f-string, not in a formatted value, don't keep quotes,
+            # but escape what can't be written as is between the single quotes of the f-string
+            # (adding a double quote makes `repr` choose single quotes), and double the braces.
+            return repr(node.value + '"')[1:-2].replace("{", "{{").replace("}", "}}")
         if parse_strings and not literal_strings:
             # We're in a place where a string could be a type annotation
             # (and not in a Literal[...] type annotation).
